@@ -226,6 +226,10 @@ def run(ck):
     ok = ck.proofs()
     rng = random.Random(ck.seed * 7331 + 7)
     cases = [cc.gen_tissue(rng) for _ in range(ntis)] + [gen_probe(rng) for _ in range(nprobe)] + [gen_single(rng) for _ in range(nsingle)]
+    # facing epithelial cubes on a dyadic lattice: a node is bit for bit equidistant from two (or three) nodes of the opposite triangle,
+    # with the remaining one beyond the adhesion cut-off for some of the cut-offs; every rotation of the triangles (own stream)
+    rng_l = random.Random(ck.seed * 7331 + 9)
+    cases += [cc.gen_lattice_pair(rng_l, tie_two=(k % 2 == 0)) for k in range(40 if ck.tier == "quick" else 400)]
     outs, crashes = cc.run_cases(cases, contact=1, san=False)
     cinfo = dict(crashes)
     fails = []; broken = []; nontriv = 0; dist = {}; lines = []; idx = []; parsed = {}
